@@ -173,6 +173,25 @@ def rf9(run):
                     run.ob(rule, ('div-ext', r['line']), ext_ok)
                     if not ext_ok:
                         viol(r, 'dividend extension', '%s must %s the dividend into rdx before F7 /%d' % (code, 'sign-extend (cqo/cdq)' if sp.signed else 'zero (xor edx,edx)', want))
+        if sp.kind == 'overflow':
+            # the instruction that computes the result must be one that sets OF / CF as the operation defines them
+            FLAGSET = {'+': ({'03', '01'}, {0}), '-': ({'2B', '29'}, {5}), '*': ({'69', '6B'}, set())}
+            regs_, digs_ = FLAGSET[sp.op]
+            good = False
+            for i_ in ins:
+                toks_i = [t for t in i_ if re.fullmatch(r'[0-9A-F]{2}', t)]
+                dig = [int(t[1]) for t in i_ if re.fullmatch(r'/[0-7]', t)]
+                if not toks_i:
+                    continue
+                if toks_i[0] in regs_ or (toks_i[0] in ('81', '83') and dig and dig[0] in digs_):
+                    good = True
+                if sp.op == '*' and (toks_i[:2] == ['0F', 'AF'] or (toks_i[0] == 'F7' and dig and dig[0] in (4, 5))):
+                    good = True
+            run.ob(rule, ('ovf-insn', r['line']), good, {'opcode': code, 'replacement': r['rep'][:40]})
+            if not good:
+                viol(r, 'overflow flags', '%s must be computed by an instruction that sets the overflow / carry flag of the operation '
+                     '(add, sub, imul, mul); [%s] does not (lea, shifts and moves leave OF unchanged), so the following BO/UBO tests a '
+                     'stale flag' % (code, r['rep'][:40]))
         if sp.kind == 'unary' and sp.dom == 'i':
             for i_ in ins:
                 if 'F7' in i_:
